@@ -284,7 +284,40 @@ func (m *c19Model) atEnd(consuming bool, eofVal *term.Term) c19Exp {
 	return e
 }
 
+// Operations whose second argument is already instantiated (get_char(S, b), get_byte(S, 98) ...): the item is read - and,
+// for get_*, consumed - exactly as with an unbound argument, then unified; the observation is matched / nomatch.
+var c19BoundOps = map[string]string{"get_char_b": "get_char", "peek_char_b": "peek_char", "get_code_b": "get_code", "peek_code_b": "peek_code",
+	"get_byte_b": "get_byte", "peek_byte_b": "peek_byte"}
+
+func c19BoundProbe(op string) *term.Term {
+	if strings.HasPrefix(c19BoundOps[op], "get_char") || strings.HasPrefix(c19BoundOps[op], "peek_char") {
+		return term.A("b")
+	}
+	return term.I('b')
+}
+
 func (m *c19Model) step(op string) c19Exp {
+	if base, ok := c19BoundOps[op]; ok {
+		e := m.stepPlain(base)
+		if e.Kind == "val" {
+			hit := false
+			for _, a := range e.Alts {
+				hit = hit || term.VariantAll([]*term.Term{a}, []*term.Term{c19BoundProbe(op)})
+			}
+			at := e.AtEnd
+			if hit {
+				e = c19Val(term.A("matched"))
+			} else {
+				e = c19Val(term.A("nomatch"))
+			}
+			e.AtEnd = at
+		}
+		return e
+	}
+	return m.stepPlain(op)
+}
+
+func (m *c19Model) stepPlain(op string) c19Exp {
 	src := m.st.Src.B
 	fail := m.st.failAt()
 	switch op {
@@ -439,6 +472,16 @@ func c19Goal(op string, i int, acc string, wrap bool) string {
 	}
 	var g string
 	switch op {
+	case "get_char_b", "peek_char_b", "get_code_b", "peek_code_b", "get_byte_b", "peek_byte_b":
+		probe := "b"
+		if c19BoundProbe(op).K == term.KInt {
+			probe = "98"
+		}
+		call := c19BoundOps[op] + "(" + sa + ", " + probe + ")"
+		if one {
+			call = c19BoundOps[op] + "(" + probe + ")"
+		}
+		g = "(" + call + " -> " + v + " = matched ; " + v + " = nomatch)"
 	case "get_char", "peek_char", "get_code", "peek_code", "get_byte", "peek_byte", "read":
 		if one {
 			g = op + "(" + v + ")"
@@ -573,11 +616,11 @@ func c19InItem(st c19Stream, ops []string, family string, dropShort bool) *Item 
 // generation
 
 var (
-	c19CoreText = []string{"get_char", "peek_char", "read_term", "at_end", "position"}
+	c19CoreText = []string{"get_char", "peek_char", "read_term", "at_end", "position", "get_char_b"}
 	c19FullText = []string{"get_char", "peek_char", "read_term", "at_end", "position", "eos", "get_code", "peek_code"}
-	c19FileText = []string{"get_char", "peek_char", "read_term", "eos"}
+	c19FileText = []string{"get_char", "peek_char", "read_term", "eos", "get_char_b"}
 	c19MidText  = []string{"get_char", "peek_char", "read_term", "at_end", "position", "eos"}
-	c19CoreBin  = []string{"get_byte", "peek_byte", "at_end", "position"}
+	c19CoreBin  = []string{"get_byte", "peek_byte", "at_end", "position", "get_byte_b"}
 	c19FullBin  = []string{"get_byte", "peek_byte", "at_end", "position", "eos"}
 )
 
@@ -647,6 +690,11 @@ func c19Witness() c19Part {
 		{abc, false, []string{"get_char", "peek_byte", "get_char", "position", "get_byte", "get_char", "peek_byte", "get_char", "position"}},
 		{two, false, []string{"read_term", "peek_byte", "get_char", "peek_byte", "read_term", "position"}},
 		{bin, true, []string{"get_byte", "peek_char", "get_byte", "position", "get_char", "get_byte", "peek_char", "position"}},
+		// an instantiated second argument: the item is consumed whether or not it unifies
+		{abc, false, []string{"get_char_b", "position", "get_char_b", "peek_char_b", "get_char", "get_char_b", "eos", "get_char"}},
+		{abc, false, []string{"peek_char_b", "get_code_b", "peek_code_b", "get_code_b", "position", "get_code"}},
+		{two, false, []string{"read_term", "get_char_b", "read_term", "get_char_b", "get_char_b", "eos"}},
+		{bin, true, []string{"get_byte_b", "position", "peek_byte_b", "get_byte_b", "get_byte", "get_byte_b", "eos"}},
 	}
 	sts := []c19Stream{
 		{Host: true, Reader: "bytes", EOF: "reset", Access: "s2"},
@@ -819,12 +867,13 @@ func (c *c19) randomPart(cx *Ctx, n int) c19Part {
 		}
 		// wrong-type operations (byte operations on a text stream and vice versa) are refused, but a refused
 		// PEEK must not move the cursor either: both get_* and peek_* of the other type are mixed in
-		names := []string{"get_char", "peek_char", "read_term", "read", "at_end", "position", "eos", "get_code", "peek_code", "get_byte", "peek_byte"}
-		weights := []int{20, 16, 18, 6, 8, 10, 10, 6, 6, 2, 4}
+		names := []string{"get_char", "peek_char", "read_term", "read", "at_end", "position", "eos", "get_code", "peek_code", "get_byte", "peek_byte",
+			"get_char_b", "peek_char_b", "get_code_b", "peek_code_b", "get_byte_b"}
+		weights := []int{20, 16, 18, 6, 8, 10, 10, 6, 6, 2, 4, 7, 4, 4, 2, 1}
 		drain := []string{"get_char", "read_term", "get_code", "peek_char"}
 		if st.Binary {
-			names = []string{"get_byte", "peek_byte", "at_end", "position", "eos", "get_char", "read_term", "peek_char"}
-			weights = []int{30, 22, 10, 14, 12, 2, 1, 4}
+			names = []string{"get_byte", "peek_byte", "at_end", "position", "eos", "get_char", "read_term", "peek_char", "get_byte_b", "peek_byte_b", "get_char_b"}
+			weights = []int{30, 22, 10, 14, 12, 2, 1, 4, 9, 5, 1}
 			drain = []string{"get_byte", "peek_byte"}
 		}
 		var ops []string
